@@ -52,6 +52,7 @@ pub struct S {
     pub rx: Seq<RxEv>,                     // every message / closure observed on a member, in order
     pub drained: Set<RawFd>,               // members whose last non-blocking read said "would block" or "closed" since they were last reported ready
     pub polled_nonempty: bool,
+    pub taken: Set<RawFd>,                 // descriptors moved out of their owning OsIpcReceiver (consume_fd) into a raw integer
 }
 
 pub struct Poll { pub _p: () }
@@ -61,7 +62,7 @@ impl Poll {
     #[verifier::external_body]
     pub fn poll(&mut self, events: &mut Events, timeout: Option<std::time::Duration>, Tracked(s): Tracked<&mut S>) -> (r: Result<(), IoError>)
         ensures
-            final(s).registered == old(s).registered, final(s).open == old(s).open, final(s).rx == old(s).rx,
+            final(s).registered == old(s).registered, final(s).open == old(s).open, final(s).rx == old(s).rx, final(s).taken == old(s).taken,
             r is Ok ==> {
                 &&& final(events).v@.len() <= 10
                 &&& forall|i: int| 0 <= i < final(events).v@.len() ==> (#[trigger] final(events).v@[i]).readable && old(s).registered.dom().contains(final(events).v@[i].token)
@@ -77,7 +78,7 @@ impl Poll {
     #[verifier::external_body]
     pub fn register_fd(&self, fd: RawFd, token: Token, Tracked(s): Tracked<&mut S>) -> (r: Result<(), UnixError>)
         ensures
-            final(s).rx == old(s).rx, final(s).drained == old(s).drained, final(s).polled_nonempty == old(s).polled_nonempty,
+            final(s).rx == old(s).rx, final(s).drained == old(s).drained, final(s).polled_nonempty == old(s).polled_nonempty, final(s).taken == old(s).taken,
             r is Ok ==> final(s).registered == old(s).registered.insert(token, fd) && final(s).open == old(s).open.insert(fd),   // the set now owns the descriptor
             r is Err ==> final(s).registered == old(s).registered && final(s).open == old(s).open,
     { unimplemented!() }
@@ -102,10 +103,16 @@ pub struct OsIpcReceiver { pub fd: std::cell::Cell<c_int> }
 #[verifier::reject_recursive_types(T)]
 pub struct ExCell<T: ?Sized>(std::cell::Cell<T>);
 pub uninterp spec fn cell_val<T>(c: &std::cell::Cell<T>) -> T;
+pub assume_specification<T: Copy> [std::cell::Cell::<T>::get] (c: &std::cell::Cell<T>) -> (r: T)
+    ensures r == cell_val(c);
 impl OsIpcReceiver {
     // consume_fd: Cell get + set(-1) (the move itself is the Kani K-ledger harness on the real function)
     #[verifier::external_body]
-    pub fn consume_fd(&self) -> (r: c_int) ensures r == cell_val(&self.fd) { unimplemented!() }
+    pub fn consume_fd(&self, Tracked(s): Tracked<&mut S>) -> (r: c_int)
+        ensures r == cell_val(&self.fd), final(s).taken == old(s).taken.insert(cell_val(&self.fd)),
+            final(s).registered == old(s).registered, final(s).open == old(s).open, final(s).rx == old(s).rx,
+            final(s).drained == old(s).drained, final(s).polled_nonempty == old(s).polled_nonempty
+    { unimplemented!() }
 }
 impl UnixError {
     #[verifier::external_body]
